@@ -256,11 +256,22 @@ def check(run):
         "high-precision numerical comparison",
         "decimal constants of the source are read as the rationals they spell",
     ]
-    if models is None:
-        import importlib
-        models = {}
     rng = run.rng
-    if models:
+    if models is None:
+        # the translator does not know the idiom the body is written in now:
+        # the theorems cannot be re-checked, but the search for a failing
+        # input (published closed forms in extended precision) still runs
+        import importlib
+        real = {}
+        for key, modname in gen_formulas.SHIPPED:
+            try:
+                real[key] = (None, importlib.import_module(
+                    "nanite.model." + modname))
+            except BaseException:
+                pass
+        docstring_constants(run, real)
+        numeric_search(run, real, rng, 40 if run.tier == "quick" else 1500)
+    else:
         interval_goals(run, models, rng, 12 if run.tier == "quick" else 150)
         docstring_constants(run, models)
         numeric_search(run, models, rng, 40 if run.tier == "quick" else 1500)
